@@ -172,6 +172,12 @@ func (k Keeper) splitFeesCollected(
 	daoAllocation := sdk.NewDec(k.DAOAllocation(ctx))
 	proposerAllocation := sdk.NewDec(k.ProposerAllocation(ctx))
 
+	// with both allocations at zero there is no ratio to split by (and the division
+	// below would panic inside BeginBlock); the proposer keeps the collected fees
+	if daoAllocation.Add(proposerAllocation).IsZero() {
+		return sdk.ZeroInt(), feesCollected
+	}
+
 	// get the new percentages of `dao / (dao + proposer)`
 	daoAllocation = daoAllocation.Quo(daoAllocation.Add(proposerAllocation))
 
